@@ -71,8 +71,22 @@ func newEngine(prog *ssa.Program, pkgs []*packages.Package) *Engine {
 		}
 	}
 	e.curNames = collectNames(modFns)
-	if !*flagGenNames {
+	var modPkgs []*types.Package
+	for _, p := range pkgs {
+		if strings.HasPrefix(p.PkgPath, modPath) && !strings.HasSuffix(p.PkgPath, "_test") {
+			modPkgs = append(modPkgs, p.Types)
+		}
+	}
+	curTypes, structs := collectTypes(modPkgs)
+	if *flagGenNames {
+		data, _ := json.MarshalIndent(curTypes, "", " ")
+		_ = os.WriteFile(filepath.Join(*flagVerif, "contracts-pinned", "types.json"), append(data, '\n'), 0o644)
+	} else {
 		e.names = computeRenames(loadBaselineNames(*flagVerif), e.curNames)
+		var baseTypes map[string][]varInfo
+		if data, err := os.ReadFile(filepath.Join(*flagVerif, "contracts-pinned", "types.json")); err == nil && json.Unmarshal(data, &baseTypes) == nil {
+			e.names.notes = append(e.names.notes, computeFieldRenames(baseTypes, curTypes, structs)...)
+		}
 	}
 	for _, f := range modFns {
 		e.fns[shortName(f.String())] = f
